@@ -65,7 +65,7 @@ def geometry_histories(tier):
     Ws = (2, 4, 6, 9) if quick else (1, 2, 3, 4, 6, 9, 12)
     Hs = (1, 3) if quick else (1, 2, 3)
     Cs = (3, 8) if quick else (1, 8)
-    kws = (1, 3, 4) if quick else (1, 2, 3, 4, 5)
+    kws = (1, 2, 3, 4) if quick else (1, 2, 3, 4, 5)
     sws = (2, 4, 6) if quick else (2, 3, 4, 6, 8)
     out = []
     for H in Hs:
